@@ -180,6 +180,78 @@ Proof.
                            (fun e => map be_decode (snd e)) k issuers []).
 Qed.
 
+(* converse of parse-of-encode: whatever google.Parse accepts is the encoding of what it returns *)
+Lemma parse_serials_sound fuel : forall n rest acc out rest',
+  bytes_ok rest -> parse_serials fuel n rest acc = Some (out, rest') ->
+  exists serials, N.of_nat (length serials) = n /\ Forall wf_serial serials /\
+                  rest = flat_map encode_serial serials ++ rest' /\ out = rev acc ++ map be_decode serials.
+Proof.
+  induction fuel as [|fuel IH]; intros n rest acc out rest' Hok H; cbn [parse_serials] in H.
+  - destruct (N.eqb_spec n 0) as [->|_]; [|discriminate]. inversion H; subst.
+    exists []. cbn. rewrite app_nil_r. auto.
+  - destruct (N.eqb_spec n 0) as [->|Hn].
+    + inversion H; subst. exists []. cbn. rewrite app_nil_r. auto.
+    + destruct rest as [|l r]; [discriminate|].
+      inversion Hok as [|? ? Hl Hr]; subst. unfold byte_ok in Hl.
+      destruct (take_N l r) as [[sb r']|] eqn:E; [|discriminate].
+      apply take_N_some in E as [-> Hlen]. apply bytes_ok_app in Hr as [_ Hr'].
+      destruct (IH _ _ _ _ _ Hr' H) as [ss [Hn' [Hwf [-> ->]]]].
+      exists (sb :: ss). cbn [length flat_map encode_serial map rev app].
+      repeat split.
+      * lia.
+      * constructor; [unfold wf_serial; lia|exact Hwf].
+      * rewrite Hlen. now rewrite <- app_assoc.
+      * cbn [rev]. now rewrite <- app_assoc.
+Qed.
+
+Lemma parse_issuers_sound fuel : forall rest m m',
+  bytes_ok rest -> parse_issuers fuel rest m = Some m' ->
+  exists issuers, Forall wf_issuer issuers /\ rest = flat_map encode_issuer issuers /\
+                  m' = fold_left issuer_step issuers m.
+Proof.
+  induction fuel as [|fuel IH]; intros rest m m' Hok H.
+  - destruct rest; cbn in H; [|discriminate]. inversion H; subst. exists []. auto.
+  - destruct rest as [|x rest0]; [cbn in H; inversion H; subst; exists []; auto|].
+    remember (x :: rest0) as rest. cbn [parse_issuers] in H. rewrite Heqrest in H at 1.
+    destruct (take_n 32 rest) as [[hash r1]|] eqn:E1; [|discriminate].
+    destruct (take_n 4 r1) as [[nb r2]|] eqn:E2; [|discriminate].
+    destruct (parse_serials (S (length r2)) (le_decode nb) r2 []) as [[serials r3]|] eqn:E3; [|discriminate].
+    apply take_n_some in E1 as [E1 Hh]. apply take_n_some in E2 as [-> Hnb].
+    rewrite E1 in Hok. apply bytes_ok_app in Hok as [_ Hok1]. apply bytes_ok_app in Hok1 as [Hoknb Hok2].
+    apply parse_serials_sound in E3 as [ss [Hn [Hwf [-> Hser]]]]; [|exact Hok2].
+    apply bytes_ok_app in Hok2 as [_ Hok3].
+    destruct (IH _ _ _ Hok3 H) as [issuers [Hwi [-> ->]]].
+    exists ((hash, ss) :: issuers). split; [|split].
+    + constructor; [|exact Hwi]. unfold wf_issuer. cbn [fst snd]. split; [exact Hh|split; [|exact Hwf]].
+      pose proof (le_decode_bound nb Hoknb) as Hb. rewrite Hnb in Hb.
+      eapply N.le_lt_trans; [apply N.eq_le_incl; exact Hn|exact Hb].
+    + rewrite E1. cbn [flat_map]. unfold encode_issuer. cbn [fst snd].
+      rewrite Hn, <- Hnb, le_encode_decode by exact Hoknb. now rewrite <- !app_assoc.
+    + cbn [fold_left]. unfold issuer_step at 2. cbn [fst snd]. now rewrite Hser.
+Qed.
+
+Lemma crlset_parse_sound json input s :
+  bytes_ok input -> parse_crlset json input = Some s ->
+  exists hdr h issuers,
+    json hdr = Some h /\ N.of_nat (length hdr) < 65536 /\ Forall wf_issuer issuers /\
+    input = encode_crlset hdr issuers /\
+    s = {| cs_sequence := h_sequence h; cs_numparents := h_numparents h; cs_blocked := h_blocked h;
+           cs_issuers := fold_left issuer_step issuers [] |}.
+Proof.
+  intros Hok H. unfold parse_crlset, get_header in H.
+  destruct (take_n 2 input) as [[lb c1]|] eqn:E1; [|discriminate].
+  destruct (take_N (le_decode lb) c1) as [[hb rest]|] eqn:E2; [|discriminate].
+  destruct (json hb) as [h|] eqn:Ej; [|discriminate].
+  destruct (parse_issuers (S (length rest)) rest []) as [m|] eqn:E3; [|discriminate].
+  inversion H; subst s; clear H.
+  apply take_n_some in E1 as [-> Hlb]. apply take_N_some in E2 as [-> Hlen].
+  apply bytes_ok_app in Hok as [Hoklb Hok1]. apply bytes_ok_app in Hok1 as [_ Hokr].
+  apply parse_issuers_sound in E3 as [issuers [Hwf [-> ->]]]; [|exact Hokr].
+  exists hb, h, issuers. repeat split; auto.
+  - rewrite Hlen. pose proof (le_decode_bound lb Hoklb) as Hb. rewrite Hlb in Hb. exact Hb.
+  - unfold encode_crlset. rewrite Hlen, <- Hlb, le_encode_decode by exact Hoklb. reflexivity.
+Qed.
+
 (* Check: exactly the blocked keys and the (issuer, serial) pairs of the parsed set *)
 Lemma crlset_check_iff s serial q r :
   check_crlset s serial q = Some r <->
